@@ -353,6 +353,8 @@ proof {
         ensures
             final(tr).failed == old(tr).failed, final(tr).decisions == old(tr).decisions,     // @C11.handle_request_with_signature.records_no_denial
             r is Ok,
+            // C15: a body that could not be read within the limit (over the limit without a declared length, or broken off) is answered 4xx
+            orig.body is None ==> 400 <= status_code(resp_status(r->Ok_0)) < 500 && body_is_empty(resp_body(r->Ok_0)),  // @C15.handle_request_with_signature.body_over_limit_answered_4xx
 """)
 
                 u.take_fn(ps, "ProxyServer::convert_request",
